@@ -689,6 +689,12 @@ def r05_14(run, model):
     for iff in S.find(arm["body"], "If"):
         if any(st["segs"][-1] == "PConstr" for st in S.find(iff["then"], "Struct")):
             preds += [c for c in S.walk(iff["cond"]) if c["k"] == "MethodCall" and S.is_path(c["recv"], "ctx")]
+            # nothing but the declared variants decides: no disjunct looks at the spelling of the name
+            foreign = [a for a in S.bool_atoms(iff["cond"]) if not (a["k"] == "MethodCall" and S.is_path(a["recv"], "ctx"))]
+            run.ob("R05.14", "lower_pat|only the variant set turns an identifier pattern into a constructor", not foreign, site(LOWER, iff["cond"]["sp"]),
+                   f"condition: `{S.norm_ws(run.facts.text(LOWER, iff['cond']['sp']))[:100]}`",
+                   witness="let Scale = 3; Scale * 2: a capitalised binder becomes the constructor pattern `Scale` (Constructor Scale not found); an inner "
+                           "`let Scale` no longer shadows the parameter Scale")
     if not preds:
         run.ob("R05.14", "lower_pat|an identifier pattern is classified by the variants of the file", True, site(LOWER, arm["sp"]),
                "no constructor pattern is built from a bare identifier here (the resolver decides)")
